@@ -3,17 +3,26 @@
 
    Model: Model/HintPrim.v (string primitives over classified code points), Gen/GenHint.v
    (_parse_hint_content, REGENERATED from the source on every run), Model/Hint.v (recover / resolve),
-   Model/HintStore.v (the metadata directory + pointer as a sequential machine with ghost `published`
-   flags).  The model is that of the REPAIRED code (fix commits 5fd880e, 9ac6748, a9fa40b on the library
-   branch agent/c10).
+   Model/HintStore.v (the metadata directory + pointer as a SEQUENTIAL machine with ghost `published` flags;
+   outcome `FailCommitPoint false` = the operation's metadata file stays behind, never published: what the code
+   does on process death / KeyboardInterrupt between the two writes, an ambiguous conditional PUT, a failed
+   best-effort removal).
 
-   One part of the property's text is NOT true of the code and is not claimed: a STALE pointer (one that
-   names an existing, older version) is trusted as it is.  Following DESIGN.md section 4 this file keeps
-   the full statement as a Definition (C10_resolve_full), its refutation (C10_resolve_full_refuted) and
-   the theorem with the exact extra hypothesis `~ stale p st` (C10_resolve_partial). *)
+   Two parts of the property's text are NOT true of the code and are not claimed.  Following DESIGN.md section 4
+   the full statements are kept as Definitions with their refutations, the theorems carry the exact extra hypothesis:
+     ~ stale p st      a STALE pointer (one that names an existing file other than the latest published one) is
+                       trusted as it is: C10_resolve_full_refuted (known finding F-C10c);
+     safe_use p st     with the pointer unusable, a NEVER-PUBLISHED file whose version is higher than the latest
+                       published one (or equal, with an mtime that is not older) wins the recovery scan:
+                       C10_resolve_full_refuted_leftover, C10_never_uncommitted_full_refuted, and exactly when:
+                       C10_recovery_safe_iff / C10_leftover_surfaces.  No durable commit record other than the
+                       pointer exists, so recovery cannot tell such a file from a published version whose pointer
+                       write was lost.
+   The `_clean_` theorems are the same statements over histories in which no file is ever left behind
+   (reachable_clean: there every stored file is published); they need no assumption on file names. *)
 From Coq Require Import ZArith NArith List Bool Permutation.
 Require Import DS.Model.HintPrim DS.Gen.GenHint DS.Gen.GenHintPins DS.Model.Hint DS.Model.HintStore.
-Require Import DS.Proofs.HintProofs DS.Proofs.HintStoreProofs.
+Require Import DS.Proofs.HintProofs DS.Proofs.HintStoreProofs DS.Proofs.HintLeftoverProofs.
 Import ListNotations.
 Open Scope N_scope.
 
@@ -50,35 +59,52 @@ Proof. exact parse_legacy. Qed.
 Print Assumptions C10_parse_legacy.
 
 (* Resolution yields the latest committed version.
-   For EVERY history of creates, commits and pointer damage from the empty directory -- any length; commits
-   that succeed, fail before writing anything, or fail at the commit point (fence, pointer write, CAS) and
-   are cleaned up; any file ids, ANY mtimes (equal, decreasing), any listing positions; the pointer
-   deleted or overwritten with any non-stale content at any moment, with commits continuing afterwards --
-   for EVERY final pointer content p that is not stale (missing, undecodable, empty, garbage, legacy
-   number, name of a missing file, the right name with whitespace around it ...) and EVERY order l in which
-   the backend lists the metadata directory:
+   For EVERY history of creates, commits and pointer damage from the empty directory -- any length; commits that
+   succeed, fail before writing anything, fail at the commit point and are cleaned up, OR LEAVE THEIR METADATA FILE
+   BEHIND (dead writer, interrupt, ambiguous PUT, failed removal); any file ids that do not collide with a stored
+   name, ANY mtimes, any listing positions; the pointer deleted or overwritten with any non-stale content at any
+   moment; no commit built on a never-published version (ok_event_lv) --
+   for EVERY final pointer content p that is not stale and whose use is SAFE (p names the latest published file, or
+   every never-published file ranks below it) and EVERY order l in which the backend lists the metadata directory:
      _current_version_info() returns the version and name of the latest published file L,
      refresh() reads L, L was published, and L holds exactly the acknowledged snapshots. *)
 Theorem C10_resolve_partial : forall (st : store) (L : mfile) (p : option (option (list cp))) (l : list mfile),
-  reachable st -> glatest st = Some L -> ascii_classified p -> ~ stale p st -> Permutation l (files st) ->
+  reachable_lv st -> glatest st = Some L -> ascii_classified p -> ~ stale p st -> safe_use p st ->
+  Permutation l (files st) ->
+  (exists name, resolve p (map entry_of l) = RRet (Some (fver L, name)) /\ codes name = codes (fname L))
+  /\ refresh_of p l = RfMeta (fver L) L
+  /\ In L (files st) /\ fcom L = true /\ fsnaps L = gacked st.
+Proof. exact resolve_lv. Qed.
+Print Assumptions C10_resolve_partial.
+
+(* The same over CLEAN histories (no operation leaves a file behind: every stored file is published, safe_use is
+   trivially true), without any assumption on file ids. *)
+Theorem C10_resolve_clean_partial : forall (st : store) (L : mfile) (p : option (option (list cp))) (l : list mfile),
+  reachable_clean st -> glatest st = Some L -> ascii_classified p -> ~ stale p st -> Permutation l (files st) ->
   (exists name, resolve p (map entry_of l) = RRet (Some (fver L, name)) /\ codes name = codes (fname L))
   /\ refresh_of p l = RfMeta (fver L) L
   /\ In L (files st) /\ fcom L = true /\ fsnaps L = gacked st.
 Proof. exact resolve_reachable. Qed.
-Print Assumptions C10_resolve_partial.
+Print Assumptions C10_resolve_clean_partial.
 
-(* The same without `~ stale p st` is the property's full text ("... stale) ... resolves to the latest
-   committed metadata version").  It is false of the code: after create, commit, commit, a pointer naming
-   version 1 resolves to version 1.  Known finding F-C10c. *)
+(* The property's full text ("for any content of the version pointer file ... resolves to the latest committed
+   metadata version"): no `~ stale`, no `safe_use`.  It is false of the code in two independent ways:
+   (1) after create, commit, commit, a pointer naming version 1 resolves to version 1 (known finding F-C10c);
+   (2) after create, commit, and a commit whose metadata file stays behind unpublished, a MISSING pointer
+       resolves to that never-published version 2 (nothing stale anywhere). *)
 Definition C10_resolve_full : Prop := forall (st : store) (L : mfile) (p : option (option (list cp))) (l : list mfile),
-  reachable st -> glatest st = Some L -> ascii_classified p -> Permutation l (files st) ->
+  reachable_lv st -> glatest st = Some L -> ascii_classified p -> Permutation l (files st) ->
   exists name, resolve p (map entry_of l) = RRet (Some (fver L, name)) /\ codes name = codes (fname L).
 
 Theorem C10_resolve_full_refuted : ~ C10_resolve_full.
-Proof. exact resolve_full_refuted. Qed.
+Proof. exact resolve_full_lv_refuted_stale. Qed.
 Print Assumptions C10_resolve_full_refuted.
 
-(* Never re-initialised: over ANY directory that holds at least one metadata file (reachable or not) and for
+Theorem C10_resolve_full_refuted_leftover : ~ C10_resolve_full.
+Proof. exact resolve_full_lv_refuted_leftover. Qed.
+Print Assumptions C10_resolve_full_refuted_leftover.
+
+(* Never re-initialised: over ANY directory that holds at least one metadata file (reachable_clean or not) and for
    EVERY pointer content whatsoever (stale ones included), create_table / Table(create_if_not_exists=True)
    changes nothing -- no file written, pointer untouched, hence same table uuid, same snapshots. *)
 Theorem C10_no_reinit : forall (p : option (option (list cp))) (fs : list mfile) (gl : option mfile) (ga : list N)
@@ -89,24 +115,65 @@ Theorem C10_no_reinit : forall (p : option (option (list cp))) (fs : list mfile)
 Proof. exact no_reinit. Qed.
 Print Assumptions C10_no_reinit.
 
-(* Recovery never surfaces a version that was never committed: in every reachable store, for EVERY
-   pointer content (stale ones included) and every listing order, whatever _current_version_info()
-   returns is the name of a file whose commit point succeeded. *)
-Theorem C10_never_uncommitted : forall (st : store) (p : option (option (list cp))) (l : list mfile) (v : N) (name : list cp),
-  reachable st -> Permutation l (files st) ->
+(* Recovery never surfaces a version that was never committed -- under the same two hypotheses: over every history
+   with leftovers, for every non-stale pointer content whose use is safe and every listing order, whatever
+   _current_version_info() returns is the name of a stored file whose commit point succeeded. *)
+Theorem C10_never_uncommitted_partial : forall (st : store) (p : option (option (list cp))) (l : list mfile) (v : N) (name : list cp),
+  reachable_lv st -> ascii_classified p -> ~ stale p st -> safe_use p st -> Permutation l (files st) ->
   resolve p (map entry_of l) = RRet (Some (v, name)) ->
   exists f, In f (files st) /\ name_eqb (fname f) name = true /\ fcom f = true.
-Proof. exact never_uncommitted. Qed.
-Print Assumptions C10_never_uncommitted.
+Proof. exact never_uncommitted_lv. Qed.
+Print Assumptions C10_never_uncommitted_partial.
 
-(* ... and that rests on the failed commit's metadata file being removed (fix 9ac6748): with a failed
-   commit whose file stays behind, a lost pointer resolves to that never-published file. *)
-Theorem C10_unremoved_orphan_surfaces :
-  exists h, Forall any_event_wf h /\
-    let st := run empty_store h in
-    exists f, In f (files st) /\ fcom f = false /\ resolve None (listing st) = RRet (Some (fver f, fname f)).
-Proof. exact unremoved_orphan_surfaces. Qed.
-Print Assumptions C10_unremoved_orphan_surfaces.
+(* The property's sentence itself (no `safe_use`): false of the code.  Witness: create; commit; a commit whose
+   metadata file v2-22222222 stays behind unpublished (its writer died before the pointer write); the pointer is
+   then missing: resolution returns v2-22222222, and no published file has that name. *)
+Definition C10_never_uncommitted_full : Prop :=
+  forall (st : store) (p : option (option (list cp))) (l : list mfile) (v : N) (name : list cp),
+  reachable_lv st -> ascii_classified p -> ~ stale p st -> Permutation l (files st) ->
+  resolve p (map entry_of l) = RRet (Some (v, name)) ->
+  exists f, In f (files st) /\ name_eqb (fname f) name = true /\ fcom f = true.
+
+Theorem C10_never_uncommitted_full_refuted : ~ C10_never_uncommitted_full.
+Proof. exact never_uncommitted_full_refuted. Qed.
+Print Assumptions C10_never_uncommitted_full_refuted.
+
+(* ... and not only in that witness: in EVERY store reachable with leftovers, a never-published (or any) file U that
+   outranks the latest published L -- higher version, or the same version and a newer mtime -- makes a lost or
+   unparseable pointer resolve, in every listing order, to a NEVER-PUBLISHED file that outranks L. *)
+Theorem C10_leftover_surfaces : forall (st : store) (L U : mfile) (p : option (option (list cp))) (l : list mfile),
+  reachable_lv st -> glatest st = Some L -> In U (files st) -> above U L -> read_hint p = PRet None ->
+  Permutation l (files st) ->
+  exists r, In r (files st) /\ fcom r = false /\ above r L
+            /\ resolve p (map entry_of l) = RRet (Some (fver r, fname r)).
+Proof. exact leftover_surfaces. Qed.
+Print Assumptions C10_leftover_surfaces.
+
+(* Exactly when recovery is safe, for ANY directory of metadata files with distinct names (reachable or not) and a
+   lost or unparseable pointer: recovery yields L in EVERY listing order if and only if every other file has a
+   lower version, or the same version and a strictly older mtime.  (With an equal mtime the first one listed wins:
+   Proofs/HintStoreProofs.v tiebreak_equal_mtime_first_listed.) *)
+Theorem C10_recovery_safe_iff : forall (fs : list mfile) (L : mfile) (p : option (option (list cp))),
+  Forall wf_file fs -> names_unique fs -> In L fs -> read_hint p = PRet None ->
+  ((forall l, Permutation l fs -> resolve p (map entry_of l) = RRet (Some (fver L, fname L)))
+   <-> others_below fs L).
+Proof. exact recovery_safe_iff. Qed.
+Print Assumptions C10_recovery_safe_iff.
+
+(* What _recover_version_from_files computes, exactly: the FIRST LISTED file among those of the highest
+   (version, mtime) -- every earlier file ranks strictly below it, no later file outranks it. *)
+Theorem C10_recover_exact : forall (l1 : list mfile) (x : mfile) (l2 : list mfile),
+  Forall wf_file (l1 ++ x :: l2) -> (forall f, In f l1 -> below f x) -> (forall f, In f l2 -> not_above f x) ->
+  recover (map entry_of (l1 ++ x :: l2)) = RRet (Some (fver x, fname x)).
+Proof. exact recover_exact. Qed.
+Print Assumptions C10_recover_exact.
+
+(* Whatever resolution returns names a listed file: any directory, EVERY pointer content (stale ones included). *)
+Theorem C10_resolves_to_listed : forall (fs : list mfile) (p : option (option (list cp))) (v : N) (name : list cp),
+  Forall wf_file fs -> resolve p (map entry_of fs) = RRet (Some (v, name)) ->
+  exists f, In f fs /\ name_eqb (fname f) name = true.
+Proof. exact resolves_to_listed. Qed.
+Print Assumptions C10_resolves_to_listed.
 
 (* Recovery orders versions as numbers: from any directory of rendered metadata files (any versions, with any
    number of decimal digits -- 9 and 10, 99 and 100, ...), whatever _recover_version_from_files returns is a listed
@@ -120,7 +187,7 @@ Print Assumptions C10_recover_highest.
 
 (* Same-version leftovers (what an AMBIGUOUS failed commit keeps on purpose): with the pointer lost or
    unparseable, recovery still picks the published file L as long as every other file has a lower version or
-   the same version and a strictly older mtime -- in every listing order, for any directory (reachable or
+   the same version and a strictly older mtime -- in every listing order, for any directory (reachable_clean or
    not).  With EQUAL mtimes the first file listed wins (tiebreak_equal_mtime_first_listed), so nothing is
    claimed there. *)
 Theorem C10_tiebreak : forall (fs : list mfile) (L : mfile) (p : option (option (list cp))),
@@ -129,20 +196,33 @@ Theorem C10_tiebreak : forall (fs : list mfile) (L : mfile) (p : option (option 
 Proof. exact tiebreak. Qed.
 Print Assumptions C10_tiebreak.
 
-(* Readable and writable with all committed data: after ANY non-stale damage to the pointer of any
-   reachable store, a commit goes through, builds on the latest committed version (same uuid, exactly the
-   acknowledged snapshots plus the new one), repairs the pointer, and the result is reachable again -- so
-   all of the above holds for whatever happens next. *)
-Theorem C10_usable : forall (st : store) (L : mfile) (p : option (option (list cp))) (id : list N) (t : Z) (pos : nat) (sid : N),
-  reachable st -> glatest st = Some L -> ascii_classified p -> ~ stale p st -> wf_id id = true ->
+(* Readable and writable with all committed data: after ANY non-stale damage to the pointer of any store reachable
+   with leftovers, provided the use of the damaged pointer is safe, a commit (whose file name does not collide with a
+   stored one) goes through, builds on the latest committed version (same uuid, exactly the acknowledged snapshots
+   plus the new one), repairs the pointer, and the result is reachable again. *)
+Theorem C10_usable_partial : forall (st : store) (L : mfile) (p : option (option (list cp))) (id : list N) (t : Z) (pos : nat) (sid : N),
+  reachable_lv st -> glatest st = Some L -> ascii_classified p -> ~ stale p st -> safe_use p st ->
+  wf_id id = true -> printable (fver L + 1) = true ->
+  (forall f, In f (files st) -> name_eqb (fname f) (render_name (fver L + 1) id) = false) ->
+  let st' := run st [EDamage p; ECommit id t pos sid Ok] in
+  reachable_lv st'
+  /\ exists L', glatest st' = Some L' /\ fver L' = fver L + 1 /\ fsnaps L' = gacked st ++ [sid]
+               /\ gacked st' = gacked st ++ [sid] /\ fuuid L' = fuuid L
+               /\ ptr st' = Some (Some (fname L')) /\ In L' (files st') /\ fcom L' = true.
+Proof. exact usable_lv. Qed.
+Print Assumptions C10_usable_partial.
+
+(* The same over clean histories, without any assumption on file ids. *)
+Theorem C10_usable_clean_partial : forall (st : store) (L : mfile) (p : option (option (list cp))) (id : list N) (t : Z) (pos : nat) (sid : N),
+  reachable_clean st -> glatest st = Some L -> ascii_classified p -> ~ stale p st -> wf_id id = true ->
   printable (fver L + 1) = true ->
   let st' := run st [EDamage p; ECommit id t pos sid Ok] in
-  reachable st'
+  reachable_clean st'
   /\ exists L', glatest st' = Some L' /\ fver L' = fver L + 1 /\ fsnaps L' = gacked st ++ [sid]
                /\ gacked st' = gacked st ++ [sid] /\ fuuid L' = fuuid L
                /\ ptr st' = Some (Some (fname L')) /\ In L' (files st') /\ fcom L' = true.
 Proof. exact usable_after_damage. Qed.
-Print Assumptions C10_usable.
+Print Assumptions C10_usable_clean_partial.
 
 (* Non-vacuity: a concrete history -- create; commit; a commit failing at the commit point (cleaned up);
    the pointer overwritten with U+00B2 (isdigit, not decimal: the content that used to raise); a commit
@@ -184,4 +264,66 @@ Proof.
     split; [eexists; repeat split|].
     split; [exact I|]. split; [apply NS; reflexivity|].
     split; vm_compute; reflexivity.
+Qed.
+
+(* Non-vacuity of the leftover theorems: create; commit; a commit whose file v2-22222222 stays behind; a commit
+   through the intact pointer (v2-33333333, newer mtime: the leftover now ranks below it); the pointer deleted; a
+   commit through the lost pointer (safe: every leftover ranks below); a commit whose file v4-55555555 stays behind.
+   The history satisfies the hypotheses; the store holds six files, two of them never published; through the intact
+   pointer resolution is safe and yields version 3; with the pointer lost it is NOT safe and yields the
+   never-published version 4; before the last event a lost pointer resolved to the published version 3. *)
+Definition ex_leftover_history : list event :=
+  [ ECreate (wid 0) 10 0 77 Ok;
+    ECommit (wid 1) 20 0 101 Ok;
+    ECommit (wid 2) 30 0 102 (FailCommitPoint false);
+    ECommit (wid 3) 40 1 103 Ok;
+    EDamage None;
+    ECommit (wid 4) 50 0 104 Ok;
+    ECommit (wid 5) 60 2 105 (FailCommitPoint false) ].
+
+Example C10_nonvacuous_leftover :
+  ok_history_lv empty_store ex_leftover_history
+  /\ (let st := run empty_store (firstn 6 ex_leftover_history) in
+      leftovers_below st /\ safe_use None st /\ resolve None (listing st) = RRet (Some (3, render_name 3 (wid 4))))
+  /\ let st := run empty_store ex_leftover_history in
+     length (files st) = 6%nat /\ gacked st = [101; 103; 104]
+     /\ (exists U, In U (files st) /\ fcom U = false /\ fver U = 2)
+     /\ (exists L, glatest st = Some L /\ fver L = 3 /\ fsnaps L = [101; 103; 104] /\ fuuid L = 77)
+     /\ safe_use (ptr st) st /\ ~ stale (ptr st) st
+     /\ resolve (ptr st) (listing st) = RRet (Some (3, render_name 3 (wid 4)))
+     /\ ~ safe_use None st
+     /\ resolve None (listing st) = RRet (Some (4, render_name 4 (wid 5))).
+Proof.
+  assert (LB : leftovers_below (run empty_store (firstn 6 ex_leftover_history))).
+  { intros f Hf Hc. vm_compute in Hf.
+    repeat (destruct Hf as [<-|Hf]; [vm_compute in Hc; try discriminate Hc; vm_compute; first [left; reflexivity|right; split; reflexivity]|]).
+    destruct Hf. }
+  split; [|split].
+  - cbn [ok_history_lv ex_leftover_history].
+    split; [lv_create|]. split; [lv_commit|]. split; [lv_commit|]. split; [lv_commit|].
+    split; [split; [exact I|apply none_not_stale]|].
+    split; [|split; [lv_commit|exact I]].
+    split; [reflexivity|]. split; [lv_written|].
+    intros _. right. intros f Hf Hc. vm_compute in Hf.
+    repeat (destruct Hf as [<-|Hf]; [vm_compute in Hc; try discriminate Hc; vm_compute; first [left; reflexivity|right; split; reflexivity]|]).
+    destruct Hf.
+  - cbv zeta. split; [exact LB|]. split; [right; exact LB|vm_compute; reflexivity].
+  - remember (run empty_store ex_leftover_history) as st eqn:E. vm_compute in E. subst st. cbv zeta.
+    split; [reflexivity|]. split; [reflexivity|].
+    split.
+    { exists {| fver := 2; fid := wid 2; fmt := 30; fcom := false; fuuid := 77; fsnaps := [101; 102] |}.
+      split; [repeat (first [left; reflexivity|right])|split; reflexivity]. }
+    split; [eexists; repeat split|].
+    split; [left; eexists; split; vm_compute; reflexivity|].
+    split.
+    { intros [v [name [f [H [Hf [Hn HL]]]]]]. vm_compute in H. inversion H; subst v name. clear H.
+      vm_compute in Hf. repeat (destruct Hf as [<-|Hf]; [vm_compute in Hn; try discriminate Hn; apply HL; reflexivity|]).
+      destruct Hf. }
+    split; [vm_compute; reflexivity|].
+    split; [|vm_compute; reflexivity].
+    intros [[L [_ Hn]]|Hlb]; [exact Hn|].
+    assert (HU : In {| fver := 4; fid := wid 5; fmt := 60; fcom := false; fuuid := 77; fsnaps := [101; 103; 104; 105] |}
+                    (files (run empty_store ex_leftover_history))) by (vm_compute; repeat (first [left; reflexivity|right])).
+    vm_compute in HU. specialize (Hlb _ HU eq_refl). vm_compute in Hlb.
+    destruct Hlb as [H|[H _]]; discriminate H.
 Qed.
